@@ -142,6 +142,12 @@ def generate(run_seed, tier):
            'output_size': c.choice([1, 3, 6])}
     if second:
         cfg['second_fit'] = second
+        if obs_cfg is not None and c.random() < 0.5:
+            # ... after the observation was replaced (other bin layout)
+            cfg['second_obs'] = S.gen_obs(c, mcfg)
+        if sampler == 'multinest' and c.random() < 0.4:
+            # ... or with another file prefix (the first run's files stay)
+            cfg['second_prefix'] = c.choice(['2-', 'b_', 'run2-'])
     return {'config': cfg, 'ops': []}
 
 
@@ -185,10 +191,12 @@ def execute(case, keep_text=False, after_fit=None):
 
     is_toy = mcfg.get('kind') == 'toy'
 
+    cur_obs = [cfg['obs']]
+
     def mk():
         if is_toy:
             return M.build_toy(mcfg)
-        return R.build_model(mcfg, install=False), S.build_obs(cfg['obs'])
+        return R.build_model(mcfg, install=False), S.build_obs(cur_obs[0])
 
     if not is_toy:
         R.install_opacities(mcfg)
@@ -297,7 +305,12 @@ def execute(case, keep_text=False, after_fit=None):
             np.random.seed(cfg['npseed'] % 2**32)
         from taurex import OutputSize
         sols = []
-        for _ in rounds:
+        for rnd_ in range(len(rounds)):
+            if rnd_ == 1:
+                if cfg.get('second_obs') and not is_toy:
+                    opt.set_observed(S.build_obs(cfg['second_obs']))
+                if cfg.get('second_prefix') and kind == 'multinest':
+                    opt.multinest_prefix = cfg['second_prefix']
             sols.append(opt.fit(output_size=OutputSize(
                 cfg.get('output_size', 6))))
         solutions[r] = sols[0]
@@ -373,8 +386,12 @@ def execute(case, keep_text=False, after_fit=None):
         for rnd in range(len(rounds)):
             modes = rounds[rnd]
             solutions = [a[rnd] for a in allsols]
+            cur_obs[0] = cfg['obs']
             if rnd:
                 out.bump('probes', 'second_fit_same_optimizer')
+                if cfg.get('second_obs') and not is_toy:
+                    cur_obs[0] = cfg['second_obs']
+                    out.bump('probes', 'observation_replaced_between_fits')
             c0 = canon(solutions[0])
             for r in range(1, Rn):
                 if canon(solutions[r]) != c0:
@@ -400,7 +417,7 @@ def execute(case, keep_text=False, after_fit=None):
                 viol('solutions', 'count', 'sampler reported %d mode(s), solution '
                      'dictionary has %s' % (nsol, keys))
                 raise Stop()
-            fit_names = [('log_' + n) if M.ref_prior_is_log(fit_by_name[n]['prior'])
+            fit_names = [('log_' + n) if M.ref_prior_is_log(fit_by_name[n]['prior']) is True
                          else n for n in order]
             binner0 = obs0.create_binner()
             for si in range(nsol):
@@ -510,8 +527,9 @@ def execute(case, keep_text=False, after_fit=None):
                 else:
                     rb = refs.ref_bin(list(ng), list(ym),
                                       list(o2.wavenumberGrid), list(o2.binWidths))
-                    if not np.allclose(np.asarray(sp['binned_spectrum']),
-                                       np.array(rb), rtol=1e-11, atol=0):
+                    bs_ = np.asarray(sp['binned_spectrum'], dtype=float)
+                    if bs_.shape != np.array(rb).shape or not np.allclose(
+                            bs_, np.array(rb, dtype=float), rtol=1e-11, atol=0):
                         viol('spectrum', 'binned_spectrum', 'stored binned '
                              'spectrum is not the MAP model binned to the '
                              'observation')
